@@ -21,6 +21,7 @@ package pki
 //vx:redirect github.com/openbao/openbao/sdk/v2/logical.StorageEntryJSON vxEntryJSON
 //vx:redirect (*github.com/openbao/openbao/sdk/v2/logical.StorageEntry).DecodeJSON vxDecodeJSON
 //vx:redirect crypto/x509.ParseCertificate vxParseCert
+//vx:redirect github.com/openbao/openbao/v2/internal/builtin/logical/pki.serialFromBigInt vxSerialFromBigInt
 //vx:redirect (*crypto/x509.Certificate).CheckSignatureFrom vxCheckSig
 //vx:redirect (*github.com/openbao/openbao/v2/internal/builtin/logical/pki.backend).ifCountEnabledIncrementTotalRevokedCertificatesCount vxCountNoop
 //vx:redirect (*github.com/openbao/openbao/sdk/v2/logical.Response).AddWarning vxAddWarning
@@ -37,7 +38,18 @@ import (
 
 	"github.com/openbao/openbao/sdk/v2/framework"
 	"github.com/openbao/openbao/sdk/v2/logical"
+	"golang.org/x/crypto/ocsp"
 )
+
+// the OCSP request's serial number: big integers are handles here (same convention as vxSerialFromCert)
+var vxOcspSerial = new(big.Int)
+
+func vxSerialFromBigInt(b *big.Int) string {
+	if b == vxOcspSerial {
+		return "1c:2d"
+	}
+	return "ff:ff"
+}
 
 type vxSysView struct {
 	logical.SystemView
@@ -50,7 +62,7 @@ func vxSystem(b *framework.Backend) logical.SystemView { return vxSysView{} }
 func vxSerialFromCert(c *x509.Certificate) string { return c.Subject.SerialNumber }
 
 func vxCountNoop(b *backend, counted bool, serial string) {}
-func vxAddWarning(r *logical.Response, w string)           { r.Warnings = append(r.Warnings, w) }
+func vxAddWarning(r *logical.Response, w string)          { r.Warnings = append(r.Warnings, w) }
 
 func vxEntryJSON(k string, v any) (*logical.StorageEntry, error) {
 	return &logical.StorageEntry{Key: k, Value: vxBox(v)}, nil
@@ -321,6 +333,16 @@ func VxRevokeAndServe() {
 		vxReach("revoke: delta WAL")
 		vxAssert("auto_rebuild with delta CRLs: the delta WAL holds the serial", st.find(localDeltaWALPath+"1c-2d") >= 0)
 	}
+	// the certificate status API and OCSP: both answer from the revocation record (real getOcspStatus and the status
+	// API's own lookup, fetchCertBySerial("revoked/", serial) + decode)
+	info, oerr := getOcspStatus(sc, &ocsp.Request{SerialNumber: vxOcspSerial})
+	vxAssert("OCSP reports the serial revoked, with its revocation time", oerr == nil && info != nil && info.ocspStatus == ocsp.Revoked && info.revocationTimeUTC != nil)
+	other, o2err := getOcspStatus(sc, &ocsp.Request{SerialNumber: new(big.Int)})
+	vxAssert("OCSP does not report an unrelated serial revoked", o2err == nil && other != nil && other.ocspStatus == ocsp.Good)
+	re, rerr := fetchCertBySerial(sc, "revoked/", "1c:2d")
+	vxAssert("the status API finds the revocation record", rerr == nil && re != nil)
+	var ri revocationInfo
+	vxAssert("and reports the revocation time OCSP reports (the instant of the revocation; the clock model includes the zero instant)", re.DecodeJSON(&ri) == nil && ri.RevocationTimeUTC.Equal(*info.revocationTimeUTC))
 	// idempotence: a further call reports the stored revocation time and changes nothing
 	before := len(st.log)
 	r3, e3 := revokeCert(sc, cfg, leaf)
